@@ -3,7 +3,7 @@
    layer stays a parameter (the driver supplies an oracle table recorded from the
    real StateProcessor). *)
 From AQ Require Import Lib.Bytes Lib.ExtractBase Lib.Keccak Rlp.RlpSpec Trie.MptSpec Trie.TrieModel
-  Bloom.BloomModel Import.ImportModel Import.DeriveShaCode Import.ImportTx.
+  Bloom.BloomModel Import.ImportModel Import.DeriveShaCode Import.ImportTx Import.UncleModel.
 Require Extraction.
 Require Import ExtrOcamlBasic.
 Local Open Scope N_scope.
@@ -33,4 +33,4 @@ Extraction "../ocaml/import/model.ml" base_anchor keccak256 encode decode_exact
   header_item header_of_item log_item
   k_derive_sha k_derive_sha_code k_calc_uncle_hash k_receipt_rlp k_receipts_bloom k_receipts_root
   k_validate_body k_validate_state k_import_block k_build_block
-  tx_state_root account_rlp addr_bytes.
+  tx_state_root account_rlp addr_bytes select_uncles verify_uncles_struct.
